@@ -815,8 +815,39 @@ pub fn mutate(r: &mut Rng, w: &Wallet, tx: &mut Transaction, inputs_known: &[WCo
             sign(w, tx, &ins);
         }
     };
-    let top = if hostile { 26 } else { 18 };
+    let top = if hostile { 28 } else { 18 };
     match r.below(top) {
+        26 | 27 => {
+            // covenants (used by no input) that weigh an enormous amount without saturating: k nested `Loop 65535`
+            // around a `Hash n` — one copy, the same one twice, or two different ones: together they pass, reach or
+            // exceed a u128
+            use melvm::opcode::OpCode::*;
+            let heavy = |depth: usize, n: u16| {
+                let mut ops: Vec<melvm::opcode::OpCode> = (0..depth).map(|i| Loop(65535, (depth - i) as u16)).collect();
+                ops.push(Hash(n));
+                Covenant::from_ops(&ops).to_bytes()
+            };
+            let a = heavy(7, *r.pick(&[46000u16, 30000, 65535, 1]));
+            let b = heavy(*r.pick(&[7usize, 8, 6]), *r.pick(&[46000u16, 20000, 65535]));
+            match r.below(4) {
+                0 => tx.covenants.push(a),
+                1 => {
+                    tx.covenants.push(a.clone());
+                    tx.covenants.push(a);
+                }
+                2 => {
+                    tx.covenants.push(a);
+                    tx.covenants.push(b);
+                }
+                _ => {
+                    for _ in 0..3 {
+                        tx.covenants.push(b.clone());
+                    }
+                }
+            }
+            resign(tx);
+            "heavy-covenants"
+        }
         18 => {
             // a covenant of arbitrary bytes that is actually used: send an output to its hash (spent by a later tx)
             let n = r.below(24) as usize;
